@@ -240,6 +240,21 @@ def check(ctx):
                        f"{got.id} is rebound after _prep ({'; '.join(norm(d.node.ast)[:60] for d in ds if d.node is not None and d.node.ast is not None)}) and "
                        f"returned without `{got.id}[{nan}] = ...`: on that path the missing positions are computed like ordinary strings "
                        f"instead of staying missing", clause="a missing value elsewhere")
+    # ARG-pass: "what the same re function returns": pattern / repl / count / flags reach re.<name> as the caller gave them.
+    # A rebinding (`repl = str(repl)`, `pattern = pattern.strip()`) changes what re sees for some legitimate argument
+    # (a callable repl, a compiled pattern, bytes).  Only `string` -- the vector being mapped over -- is prepared.
+    ctx.rule("ARG-pass", "the arguments of a regex function other than the string reach the re function as given")
+    for f in rem.functions.values():
+        import re as _re_mod2
+        if f.name.startswith("_") or not hasattr(_re_mod2, f.name):
+            continue
+        passed = [p_ for p_ in list(f.params) + list(f.kwonly) if p_ != "string"]
+        reb = [n for n in body_nodes(f.node) if isinstance(n, (ast.Assign, ast.AugAssign, ast.AnnAssign))
+               and any(isinstance(t, ast.Name) and t.id in passed for tt in (n.targets if isinstance(n, ast.Assign) else [n.target]) for t in ast.walk(tt))]
+        ctx.ob("ARG-pass", f, f"arguments {passed} of {f.name}", f.node, not reb,
+               "none of them is rebound before the re call" if not reb else
+               f"`{norm(reb[0])[:60]}` replaces an argument before re.{f.name} sees it: re accepts values (a callable repl, a compiled or "
+               f"bytes pattern) that the conversion changes", clause="what the same re function returns for that string")
     ctx.count("regex functions", n_re, 7)
     prep = repo.functions.get("dataiter.regex._prep")
     if prep is None:
